@@ -1048,3 +1048,5 @@ Proof.
   pose proof (need_top e n sid vs Hfin Hty). lia.
 Qed.
 Print Assumptions roundtrip_struct_static.
+Lemma tneed_overflow n e sid : (length e <= sid)%nat -> tneed (S n) e (TStruct sid) = 4%nat.
+Proof. intros H. cbn [tneed]. unfold fields_of. rewrite nth_overflow by assumption. reflexivity. Qed.
